@@ -882,11 +882,14 @@ func (p *InlineParser) parseEndBracket(state *inlineState, start int) (end int) 
 		// Collapsed reference link.
 
 		// Since we're backtracking, we use the full state.unparsed rather than a slice.
-		normalizedLabel := transformLinkReferenceSpan(state.source, state.unparsed, Span{
+		labelSpan := Span{
 			Start: state.stack[openDelimIndex].node.Span().End,
 			End:   start,
-		})
-		if p.ReferenceMatcher == nil || !p.ReferenceMatcher.MatchReference(normalizedLabel) {
+		}
+		normalizedLabel := transformLinkReferenceSpan(state.source, state.unparsed, labelSpan)
+		if p.ReferenceMatcher == nil ||
+			!fitsLinkLabel(state.source, state.unparsed, labelSpan) ||
+			!p.ReferenceMatcher.MatchReference(normalizedLabel) {
 			state.addToRoot(&Inline{
 				kind: TextKind,
 				span: Span{
@@ -961,11 +964,14 @@ func (p *InlineParser) parseEndBracket(state *inlineState, start int) (end int) 
 		// Shortcut reference link.
 
 		// Since we're backtracking, we use the full state.unparsed rather than a slice.
-		normalizedLabel := transformLinkReferenceSpan(state.source, state.unparsed, Span{
+		labelSpan := Span{
 			Start: state.stack[openDelimIndex].node.Span().End,
 			End:   start,
-		})
-		if p.ReferenceMatcher == nil || !p.ReferenceMatcher.MatchReference(normalizedLabel) {
+		}
+		normalizedLabel := transformLinkReferenceSpan(state.source, state.unparsed, labelSpan)
+		if p.ReferenceMatcher == nil ||
+			!fitsLinkLabel(state.source, state.unparsed, labelSpan) ||
+			!p.ReferenceMatcher.MatchReference(normalizedLabel) {
 			state.addToRoot(&Inline{
 				kind: TextKind,
 				span: Span{
@@ -1217,15 +1223,26 @@ func parseLinkLabel(r *inlineByteReader) linkLabel {
 		inner: NullSpan(),
 	}
 
-	// Skip initial spaces.
+	// Characters are code points,
+	// and a line ending is one character however it is spelled.
 	chars := 0
+	prevCR := false
+	countCurrent := func() {
+		c := r.current()
+		if c&0xc0 != 0x80 && !(c == '\n' && prevCR) {
+			chars++
+		}
+		prevCR = c == '\r'
+	}
+
+	// Skip initial spaces.
 	for {
 		if !r.next() {
 			return linkLabel{NullSpan(), NullSpan()}
 		}
-		chars++
+		countCurrent()
 		c := r.current()
-		if chars >= maxChars || c == '[' || c == ']' {
+		if chars > maxChars || c == '[' || c == ']' {
 			return linkLabel{NullSpan(), NullSpan()}
 		}
 		if !isSpaceTabOrLineEnding(c) {
@@ -1235,13 +1252,13 @@ func parseLinkLabel(r *inlineByteReader) linkLabel {
 	result.inner.Start = r.pos
 
 	// Consume rest of the label text.
-	for ; chars < maxChars && r.current() != '[' && r.current() != ']'; chars++ {
+	for chars <= maxChars && r.current() != '[' && r.current() != ']' {
 		if r.current() == '\\' {
 			result.inner.End = r.pos + 1
-			chars++
 			if !r.next() {
 				return linkLabel{NullSpan(), NullSpan()}
 			}
+			countCurrent()
 			if !isSpaceTabOrLineEnding(r.current()) {
 				result.inner.End = r.pos + 1
 			}
@@ -1251,6 +1268,7 @@ func parseLinkLabel(r *inlineByteReader) linkLabel {
 		if !r.next() {
 			return linkLabel{NullSpan(), NullSpan()}
 		}
+		countCurrent()
 	}
 
 	if r.current() != ']' {
@@ -1259,6 +1277,26 @@ func parseLinkLabel(r *inlineByteReader) linkLabel {
 	result.span.End = r.pos + 1
 	r.next()
 	return result
+}
+
+// fitsLinkLabel reports whether the text of a collapsed or shortcut reference
+// has no more characters than a link label can have.
+func fitsLinkLabel(source []byte, unparsed []*Inline, span Span) bool {
+	const maxChars = 999
+	r := newInlineByteReader(source, unparsed, span.Start)
+	chars := 0
+	prevCR := false
+	for r.pos < span.End {
+		c := r.current()
+		if c&0xc0 != 0x80 && !(c == '\n' && prevCR) {
+			chars++
+		}
+		prevCR = c == '\r'
+		if !r.next() {
+			break
+		}
+	}
+	return chars <= maxChars
 }
 
 // skipLinkSpace skips over "spaces, tabs, and up to one line ending"
